@@ -503,3 +503,72 @@ pub fn chains(maxk: usize) -> Vec<Universe> {
 pub fn late3xu_oe() -> Vec<Universe> {
     late_gadget_opts(3, true, false, None).into_iter().filter(|u| !u.label.split(':').nth(1).unwrap_or("").contains('A')).collect()
 }
+
+/// trees of Ephemerals: `r:E -> c1:E -> o1:O`, `r -> c2:E -> o2:O`, one Always `x` feeding one of
+/// o1 / o2 / c1 / c2, optionally `c1 -> c2` and `r -> o1`.  Whether r is needed is decided by looking
+/// *through* its validated Ephemeral children, in declaration order, possibly late.
+pub fn eph_trees() -> Vec<Universe> {
+    let mut out = Vec::new();
+    for cross in [false, true] {
+        for direct in [false, true] {
+            for target in [3usize, 4, 1, 2] {
+                let jobs = vec![
+                    JobDef::new("r", Kind::E),
+                    JobDef::new("c1", Kind::E),
+                    JobDef::new("c2", Kind::E),
+                    JobDef::new("o1", Kind::O),
+                    JobDef::new("o2", Kind::O),
+                    JobDef::new("x", Kind::A),
+                ];
+                let mut edges = vec![(0usize, 1usize), (0, 2), (1, 3), (2, 4)];
+                if cross {
+                    edges.push((1, 2));
+                }
+                if direct {
+                    edges.push((0, 3));
+                }
+                edges.push((5, target));
+                let edges = edges.into_iter().map(|(u, d)| Edge { up: u, down: d, read: true, parts: vec![] }).collect();
+                out.push(Universe {
+                    label: format!("ephtree:{}{}:x->{}", if cross { "c" } else { "-" }, if direct { "d" } else { "-" }, target),
+                    graphs: vec![Graph { jobs, edges }],
+                });
+            }
+        }
+    }
+    out
+}
+
+/// the same with three Ephemeral children (8 jobs): every subset of the forward cross edges among the
+/// children, x feeding any child or output
+pub fn eph_trees3() -> Vec<Universe> {
+    let mut out = Vec::new();
+    let cross = [(1usize, 2usize), (1, 3), (2, 3)];
+    for cs in 0..8usize {
+        for target in 1..=6usize {
+            let jobs = vec![
+                JobDef::new("r", Kind::E),
+                JobDef::new("c1", Kind::E),
+                JobDef::new("c2", Kind::E),
+                JobDef::new("c3", Kind::E),
+                JobDef::new("o1", Kind::O),
+                JobDef::new("o2", Kind::O),
+                JobDef::new("o3", Kind::O),
+                JobDef::new("x", Kind::A),
+            ];
+            let mut edges = vec![(0usize, 1usize), (0, 2), (0, 3), (1, 4), (2, 5), (3, 6)];
+            for (k, e) in cross.iter().enumerate() {
+                if cs & (1 << k) != 0 {
+                    edges.push(*e);
+                }
+            }
+            edges.push((7, target));
+            let edges = edges.into_iter().map(|(u, d)| Edge { up: u, down: d, read: true, parts: vec![] }).collect();
+            out.push(Universe {
+                label: format!("ephtree3:{:03b}:x->{}", cs, target),
+                graphs: vec![Graph { jobs, edges }],
+            });
+        }
+    }
+    out
+}
